@@ -196,6 +196,12 @@ func propC06(c *Ctx) {
 				}
 			}
 			if next == nil {
+				// the stored counter was never consulted: only an error may end here - an answer
+				// (NOOP or SUCCESS) decided from anything but the stored next sequence (a cache, a
+				// hint, a field of the keeper) is not rolled back with the store
+				if p.OK() && !p.Panic {
+					oDet.Fail(c.W.Pos(fn.Pos()), "the message is answered without loading the stored next L1 sequence", c.Dump(p, -1))
+				}
 				continue
 			}
 			switch relEnd {
